@@ -63,6 +63,10 @@ func (f *WithOpenStream) Call(s *slip.Scope, args slip.List, depth int) (result 
 		args = args[1:]
 		for i := range args {
 			result = slip.EvalArg(s2, args, i, d2)
+			switch result.(type) {
+			case *slip.ReturnResult, *GoTo:
+				return result
+			}
 		}
 	} else {
 		slip.TypePanic(s, depth, "stream", subArgs[1], "stream")
